@@ -158,3 +158,24 @@ func VerifCrashDuringRefresh() { verifCrashRun(1, false) }
 // VerifFindingCrashDuringRefresh: the same without filtering the recorded
 // findings.
 func VerifFindingCrashDuringRefresh() { verifCrashRun(1, true) }
+
+// VerifFindingCrashDuringMetainfoRewrite: a cached blob already has metainfo
+// (piece length 1); metainfo is generated again with another piece length
+// configuration (sidecar content of another length, so compareAndWriteFile
+// truncates and then rewrites in place) and the process dies in between.
+// Same root cause as finding 2 (sidecars are written in place).
+func VerifFindingCrashDuringMetainfoRewrite() {
+	verif.Option("max_preempt", 0)
+	verifScenario(0)
+	crashed := verif.CrashScope(func() {
+		cas, err := verifOpen()
+		verif.Assert("store-opens", err == nil)
+		g, err := New(Config{PieceLengths: map[datasize.ByteSize]datasize.ByteSize{0: 2}}, cas)
+		verif.Assert("generator", err == nil)
+		verif.Assert("regenerate", g.Generate(verifDigest()) == nil)
+	})
+	verif.Cover("crashed", crashed)
+	cas := verifAfterRestart(true)
+	_, err := cas.GetCacheFileStat(verifDigest().Hex())
+	verif.Assert("blob-still-cached", err == nil)
+}
